@@ -134,6 +134,46 @@ def run(ctx):
     rem = [o['pos'] for o in E.content_ops(mf) if o['op'] == 'remove']
     C.check(len(ins) == 1 and before_all(mf, ins[0], ro_positions(mf, {'add'})), 'C05-PAIR-origins', 'move_element_full|insert|needs:add', 'moved references are not registered in the destination model')
     C.check(len(rem) == 1 and after_all_ok(mf, rem[0], ro_positions(mf, {'remove'})), 'C05-PAIR-origins', 'move_element_full|remove|needs:remove', 'moved references stay registered in the source model')
+    # every reference collected from a subtree is (de)registered: inside the loop that registers / deregisters referrers no
+    # iteration can come back to the loop head without passing the index call, except over the "not a reference" /
+    # "no reference text" edges of that same element (a data-dependent filter such as `if paths.contains_key(..)` drops referrers)
+    def loop_covers(b, op_positions, label):
+        from flow import switch_edges_on_call_result, must_pass
+        for p in op_positions:
+            loops = [(h, body) for h, body in b.natural_loops() if p[0] in body]
+            if not loops:
+                continue
+            h, body = min(loops, key=lambda x: len(x[1]))
+            allowed = set()
+            for q in calls(b, r'(impl Element|ElementRaw)>::is_reference$|ElementType::is_ref$'):
+                if q[0] in body:
+                    sw = switch_edges_on_call_result(b, q)
+                    if sw:
+                        allowed.add((sw[0], sw[1].get('0', sw[2])))
+            for q, tt in b.iter_terms():
+                # `if let Some(CharacterData::String(x)) = e.character_data()` : the non-matching edges
+                if q[0] in body and tt['k'] == 'switch' and is_local_op(tt['d']):
+                    from flow import deep_sources
+                    n_, c_, f_ = deep_sources(b, tt['d'], depth=8)
+                    if any(c.endswith('::character_data') for c in c_):
+                        ts = dict(tt['ts'])
+                        for v, tgt in list(ts.items()) + [('else', tt['else'])]:
+                            allowed.add((q[0], tgt))
+                        # ... but not the edge that leads to the index call
+                        for v, tgt in list(ts.items()) + [('else', tt['else'])]:
+                            if p in b.reach_from((tgt, 0), include_start=True, avoid={(h, 0)}):
+                                allowed.discard((q[0], tgt))
+            # err exits leave the loop; back edges into the header are the targets
+            back = [(bi, b.nstmts(bi)) for bi in body if h in b.succs(bi)]
+            # entry of an iteration: successors of the header inside the body
+            starts = [(s_, 0) for s_ in b.succs(h) if s_ in body]
+            ok = all(must_pass(b, st, back, through={p}, avoid_edges=allowed) for st in starts) if starts and back else False
+            C.check(ok, 'C05-PAIR-origins', '%s|%s-loop-covers-every-collected-reference' % (b.short, label),
+                    'in %s the loop that %ss referrers can finish an iteration without the index call for a reference it holds (a filter on the reference text or its target decides): that reference element is part of the model but in no referrer list, so get_references_to() misses it and check_references() cannot report it' % (b.short, label),
+                    b.where(p), sample={'fn': b.short, 'loop': label, 'bypass_allowed_only_for': 'not a reference / no reference text'})
+    loop_covers(mf, [pos for pos, t in mf.iter_calls() if (callee_of(t) or '').endswith('add_reference_origin')], 'register')
+    loop_covers(mf, [pos for pos, t in mf.iter_calls() if (callee_of(t) or '').endswith('remove_reference_origin')], 'deregister')
+    loop_covers(cc, [pos for pos, t in cc.iter_calls() if (callee_of(t) or '').endswith('add_reference_origin')], 'register')
     ri = P.get('ElementRaw::remove_internal')
     rr = ro_positions(ri, {'remove'})
     C.check(len(rr) == 1 and bool(dominated_by(ri, rr[0], calls(ri, r'ElementType::is_ref$'))), 'C05-PAIR-origins', 'remove_internal|deregisters-reference', 'remove_internal no longer removes a deleted reference from reference_origins')
